@@ -137,17 +137,17 @@ theorem respond_ctrl_cases (c : Ctx) (dst : B) (e : Enc) (buf : Bytes) (cmd : Cm
     (∃ k, respond c dst e buf = (c, .panic k, buf)) ∨
     (respond c dst e buf =
         (c, .ok (12 + data.length), respPkt c.address dst cmd.toByte data ++ buf.drop (12 + data.length)) ∧
-      12 + data.length ≤ buf.length) := by
+      12 + data.length ≤ buf.length ∧ data.length ≤ 247) := by
   rcases respond_cases c dst e buf with ⟨n, buf', hr, he⟩ | h
   · right
-    obtain ⟨t, hd, d, hb, _, _, hn, hle, hbuf⟩ := encode_ok_inv c dst e buf buf' n he
+    obtain ⟨t, hd, d, hb, _, hfit, hn, hle, hbuf⟩ := encode_ok_inv c dst e buf buf' n he
     obtain ⟨rfl, rfl, rfl⟩ := hbody t hd d hb
-    rw [ctrlHeader_optLen] at hn
+    rw [ctrlHeader_optLen] at hn hfit
     have hn' : n = 12 + d.length := by omega
     subst hn'
     rw [respPkt_eq] at hbuf
     subst hbuf
-    exact ⟨hr, hle⟩
+    exact ⟨hr, hle, by omega⟩
   · exact .inl h
 
 /-- `dispatch` either panics leaving the buffer alone, or writes one control response whose first
@@ -155,7 +155,7 @@ data byte (the completion code) is Success or Invalid-Data -/
 theorem dispatch_cases (c : Ctx) (cmd src : B) (pay : Nat → B) (buf : Bytes) :
     (∃ c' k, dispatch c cmd src pay buf = (c', .panic k, buf)) ∨
     (∃ c' cc rest, (cc = 0x00#8 ∨ cc = 0x02#8) ∧ 1 ≤ cmd.toNat ∧ cmd.toNat ≤ 6 ∧
-      13 + rest.length ≤ buf.length ∧
+      (13 + rest.length ≤ buf.length ∧ rest.length ≤ 246) ∧
       dispatch c cmd src pay buf =
         (c', .ok (13 + rest.length),
           respPkt c.address src cmd (cc :: rest) ++ buf.drop (13 + rest.length))) := by
@@ -164,17 +164,18 @@ theorem dispatch_cases (c : Ctx) (cmd src : B) (pay : Nat → B) (buf : Bytes) :
       (∀ t hd d, e.body c' = .ok (t, hd, d) → t = .control ∧ hd = some (ctrlHeader false cm) ∧ d = cc :: rest) →
       (∃ c'' k, respond c' src e buf = (c'', .panic k, buf)) ∨
       (∃ c'' cc rest, (cc = 0x00#8 ∨ cc = 0x02#8) ∧ 1 ≤ cmd.toNat ∧ cmd.toNat ≤ 6 ∧
-        13 + rest.length ≤ buf.length ∧
+        (13 + rest.length ≤ buf.length ∧ rest.length ≤ 246) ∧
         respond c' src e buf =
           (c'', .ok (13 + rest.length),
             respPkt c.address src cmd (cc :: rest) ++ buf.drop (13 + rest.length))) := by
     intro c' e cm cc rest ha hcm hcc h1 h6 hbody
-    rcases respond_ctrl_cases c' src e buf cm (cc :: rest) hbody with ⟨k, hk⟩ | ⟨hr, hle⟩
+    rcases respond_ctrl_cases c' src e buf cm (cc :: rest) hbody with ⟨k, hk⟩ | ⟨hr, hle, h247⟩
     · exact .inl ⟨_, _, hk⟩
     · right
       have e1 : 12 + (cc :: rest).length = 13 + rest.length := by simp; omega
+      have e2 : (cc :: rest).length = rest.length + 1 := by simp
       rw [e1, ha, hcm] at hr
-      exact ⟨c', cc, rest, hcc, h1, h6, by omega, hr⟩
+      exact ⟨c', cc, rest, hcc, h1, h6, ⟨by omega, by omega⟩, hr⟩
   rcases cmdCase cmd with ⟨h, e⟩ | ⟨h, e⟩ | ⟨h, e⟩ | ⟨h, e⟩ | ⟨h, e⟩ | ⟨h, e⟩ | ⟨h, e⟩ | ⟨h, hne⟩
   · rw [dispatch_reserved c cmd src pay buf h]; exact .inl ⟨_, _, rfl⟩
   · rw [dispatch_setEid c cmd src pay buf h]
@@ -234,7 +235,7 @@ theorem process_cases (c : Ctx) (p buf : Bytes) :
     (Spec.isAcceptedRequest p = true ∧ Spec.reqUnimpl (byteAt p 10) = false ∧
       decode p = .ok (.control, 11, p.length - 12) ∧
       ∃ c' cc rest, (cc = 0x00#8 ∨ cc = 0x02#8) ∧ 1 ≤ (byteAt p 10).toNat ∧ (byteAt p 10).toNat ≤ 6 ∧
-        13 + rest.length ≤ buf.length ∧
+        (13 + rest.length ≤ buf.length ∧ rest.length ≤ 246) ∧
         dispatch c (byteAt p 10) (byteAt p 6) (fun i => byteAt p (11 + i)) buf =
           (c', .ok (13 + rest.length),
             respPkt c.address (byteAt p 6) (byteAt p 10) (cc :: rest) ++ buf.drop (13 + rest.length)) ∧
@@ -291,6 +292,87 @@ theorem process_of_dispatch (c : Ctx) (p buf : Bytes) (ha : Spec.isAcceptedReque
     (hd : dispatch c (byteAt p 10) (byteAt p 6) (fun i => byteAt p (11 + i)) buf = (c', r, buf')) :
     process c p buf = (c', r.map (fun n => ((MsgType.control, 11, p.length - 12), some n)), buf') := by
   rw [process_accepted c p buf ha hu, hd]
+
+/-! ### the EID cells -/
+
+/-- only the Set/Force arm of Set Endpoint ID moves the EID cells, and it moves both -/
+theorem dispatch_eids (c : Ctx) (cmd src : B) (pay : Nat → B) (buf : Bytes) :
+    ((dispatch c cmd src pay buf).1.reqEid, (dispatch c cmd src pay buf).1.respEid) =
+      if cmd = 0x01#8 ∧ (pay 0 = 0#8 ∨ pay 0 = 1#8) then (pay 1, pay 1) else (c.reqEid, c.respEid) := by
+  rcases cmdCase cmd with ⟨h, e⟩ | ⟨h, e⟩ | ⟨h, e⟩ | ⟨h, e⟩ | ⟨h, e⟩ | ⟨h, e⟩ | ⟨h, e⟩ | ⟨h, hne⟩
+  · rw [dispatch_reserved c cmd src pay buf h]; subst e; simp
+  · rw [dispatch_setEid c cmd src pay buf h]; subst e
+    by_cases hop : pay 0 = 0#8 ∨ pay 0 = 1#8
+    · simp only [hop, if_true, respond_fst, true_and]
+    · simp only [hop, if_false, and_false]
+      split
+      · rfl
+      · split
+        · simp only [respond_fst]
+        · rfl
+  · rw [dispatch_getEid c cmd src pay buf h]; subst e; simp [respond_fst]
+  · rw [dispatch_uuid c cmd src pay buf h]; subst e; simp [respond_fst]
+  · rw [dispatch_version c cmd src pay buf h]; subst e; simp [respond_fst]
+  · rw [dispatch_msgTypes c cmd src pay buf h]; subst e; simp [respond_fst]
+  · rw [dispatch_vendor c cmd src pay buf h]; subst e
+    have : ¬ ((6#8 : B) = 1#8 ∧ (pay 0 = 0#8 ∨ pay 0 = 1#8)) := by
+      intro h; exact absurd h.1 (by decide)
+    simp only [this, if_false]
+    split
+    · rfl
+    · split
+      · rfl
+      · split
+        · simp only [respond_fst]
+        · rfl
+  · rw [dispatch_other c cmd src pay buf hne]
+    have : cmd ≠ 0x01#8 := by intro h1; subst h1; simp at h
+    simp [this]
+
+theorem assigns_eq (p : Bytes) (ha : Spec.isAcceptedRequest p = true) :
+    Spec.assigns p =
+      if byteAt p 10 = 0x01#8 ∧ (byteAt p 11 = 0#8 ∨ byteAt p 11 = 1#8) then some (byteAt p 12) else none := by
+  unfold Spec.assigns Spec.cmdOf
+  simp [ha]
+
+theorem assigns_some (p : Bytes) (e : B) (h : Spec.assigns p = some e) :
+    Spec.isAcceptedRequest p = true ∧ byteAt p 10 = 0x01#8 ∧ (byteAt p 11 = 0#8 ∨ byteAt p 11 = 1#8) ∧
+      e = byteAt p 12 := by
+  unfold Spec.assigns Spec.cmdOf at h
+  split at h
+  · rename_i hc
+    simp at hc h
+    exact ⟨hc.1.1, hc.1.2, hc.2, h.symm⟩
+  · simp at h
+
+/-- C13: the EID cells after `process` -/
+theorem process_eids (c : Ctx) (p buf : Bytes) :
+    ((process c p buf).1.reqEid, (process c p buf).1.respEid) =
+      match Spec.assigns p with
+      | some e => (e, e)
+      | none => (c.reqEid, c.respEid) := by
+  rcases process_cases c p buf with ⟨hn, h⟩ | ⟨ha, _, _, c', k, hd, h⟩ | ⟨ha, _, _, c', cc, rest, _, _, _, _, hd, h⟩
+  · have : Spec.assigns p = none := by
+      cases hs : Spec.assigns p with
+      | none => rfl
+      | some e =>
+        exfalso
+        obtain ⟨ha, hcmd, _, _⟩ := assigns_some p e hs
+        have hu : Spec.reqUnimpl (byteAt p 10) = false := by rw [hcmd]; decide
+        have := hn _ (decode_accepted p ha hu)
+        obtain ⟨_, _, hc, hr, _, _⟩ := (acceptedRequest_iff p).mp ha
+        simp [hc, hr] at this
+    rw [this, h]
+  · have he := dispatch_eids c (byteAt p 10) (byteAt p 6) (fun i => byteAt p (11 + i)) buf
+    rw [hd] at he
+    rw [h, assigns_eq p ha]
+    simp only [Nat.add_zero, Nat.reduceAdd] at he
+    rw [he]; split <;> rfl
+  · have he := dispatch_eids c (byteAt p 10) (byteAt p 6) (fun i => byteAt p (11 + i)) buf
+    rw [hd] at he
+    rw [h, assigns_eq p ha]
+    simp only [Nat.add_zero, Nat.reduceAdd] at he
+    rw [he]; split <;> rfl
 
 end Proc
 end Mctp
